@@ -2,6 +2,7 @@
 
 
 def register(reg):
+    register_init(reg)
     C = reg.contract
 
     # ------------------------------------------------------------------ C06: sort_meta
@@ -36,6 +37,7 @@ def register(reg):
                 "self.outfile is None or is_str(self.outfile)"],
       fs_modifies=["_path == self.outfile"],
       fs_props=["C18"],
+      returns="tuple[str,dict]",
       ensures=[
           ("C06", "dumped_top_keys_sorted", "keys_ascending(dumped())"),
           ("C06", "dumped_info_keys_sorted", "keys_ascending(dumped()['info'])"),
@@ -44,3 +46,75 @@ def register(reg):
       ],
       raises={"BaseException": {}},
       notes="write() hands pyben.dump exactly the dictionary sort_meta returned; the only path written is self.outfile")
+
+
+def register_init(reg):
+    C = reg.contract
+    M = "self.meta"
+    INFO = "self.meta['info']"
+    # effective values after the documented path recovery (C20: a list-valued flag placed before the positional content
+    # path swallows it; MetaFile takes it back from the end of the list)
+    PLVE = "torrentfile.utils.PieceLengthValueError"
+    C("torrentfile.torrent.MetaFile.__init__",
+      props=["C20", "C08", "C12"],
+      params={"self": {"cls": "torrentfile.torrent.MetaFile", "fields": {}},
+              "path": "any", "announce": "any", "comment": "any", "align": "any", "piece_length": "any", "private": "any",
+              "outfile": "any", "source": "any", "progress": "any", "cwd": "any", "httpseeds": "any", "url_list": "any",
+              "content": "any", "meta_version": "any"},
+      ghost={"k": "str"},
+      merge_ifs=True,
+      requires=[
+          "is_none(path) or is_str(path)", "is_none(content) or is_str(content)",
+          "is_none(announce) or is_str(announce) or is_list(announce)",
+          "implies(is_list(announce) and truthy(announce), is_str(first(announce)))",
+          "is_none(url_list) or is_list(url_list)", "is_none(httpseeds) or is_list(httpseeds)",
+          "is_none(comment) or is_str(comment)", "is_none(source) or is_str(source)",
+          "is_bool(private) or is_none(private)",
+          "is_none(piece_length) or is_int(piece_length) or is_str(piece_length)",
+          "is_int(progress)",
+          "truthy(path) or truthy(content)",      # path recovery from list options is exercised by the bounded harness
+      ],
+      ensures=[
+          # ---- C08 / C20: the info dictionary holds exactly name, piece length and the info-level options that were given
+          (["C08", "C20"], "info_key_set",
+           f"(k in {INFO}) == (k == 'name' or k == 'piece length' or (k == 'comment' and truthy(comment)) "
+           f"or (k == 'private' and truthy(private)) or (k == 'source' and truthy(source)))"),
+          (["C20"], "info_option_values",
+           f"implies(truthy(comment), {INFO}['comment'] == comment) and implies(truthy(source), {INFO}['source'] == source) "
+           f"and implies(truthy(private), {INFO}['private'] == 1)"),
+          (["C08", "C20"], "name_is_basename_of_resolved_path",
+           f"{INFO}['name'] == basename_abspath(content if truthy(content) else path)"),
+          # ---- C20: top-level fields
+          (["C20", "C08"], "top_level_key_set",
+           f"(k in {M}) == (k == 'created by' or k == 'creation date' or k == 'info' "
+           f"or ((k == 'announce' or k == 'announce-list') and truthy(announce) and not (is_list(announce) and as_str(first(announce)) == '')) "
+           f"or (k == 'url-list' and truthy(url_list)) or (k == 'httpseeds' and truthy(httpseeds)))"),
+          (["C20"], "seed_values", f"implies(truthy(url_list), {M}['url-list'] == url_list) and "
+                                   f"implies(truthy(httpseeds), {M}['httpseeds'] == httpseeds)"),
+          (["C20"], "announce_values",
+           f"implies(truthy(announce) and is_str(announce), {M}['announce'] == announce and {M}['announce-list'] == [[announce]]) and "
+           f"implies(truthy(announce) and is_list(announce) and as_str(first(announce)) != '', "
+           f"{M}['announce'] == first(announce) and {M}['announce-list'] == [announce])"),
+          # ---- C12: the recorded piece length
+          (["C12"], "explicit_piece_length_recorded_exactly",
+           f"implies(is_int(piece_length), {INFO}['piece length'] == (pow2(as_int(piece_length)) if as_int(piece_length) <= 29 "
+           f"else as_int(piece_length)) and (valid_piece_length_arg(as_int(piece_length)) or free_piece_length_arg(as_int(piece_length))))"),
+          (["C12"], "explicit_numeral_recorded_exactly",
+           f"implies(is_str(piece_length) and as_str(piece_length) != '', int_parsable(as_str(piece_length)) and "
+           f"{INFO}['piece length'] == (pow2(int_value(as_str(piece_length))) if int_value(as_str(piece_length)) <= 29 "
+           f"else int_value(as_str(piece_length))))"),
+          (["C12"], "automatic_piece_length_in_range",
+           f"implies(is_none(piece_length) or (is_str(piece_length) and as_str(piece_length) == ''), "
+           f"is_pow2({INFO}['piece length']) and 16384 <= {INFO}['piece length'] <= 16777216)"),
+          (["C12"], "object_piece_length_is_recorded_one", f"self.piece_length == {INFO}['piece length']"),
+          (["C20"], "other_options_kept", "self.align == align and self.outfile == outfile and self.meta_version == meta_version "
+                                          "and self.path == (content if truthy(content) else path)"),
+      ],
+      raises={PLVE: {"ensures": [
+          (["C12"], "rejected_only_if_invalid",
+           "not is_none(piece_length) and not (is_int(piece_length) and valid_piece_length_arg(as_int(piece_length))) and "
+           "not (is_str(piece_length) and ascii_decimal(as_str(piece_length)) and valid_piece_length_arg(int_value(as_str(piece_length))))")]},
+          "torrentfile.utils.MissingPathError": {}, "ValueError": {}, "IndexError": {}, "TypeError": {}},
+      raises_props=["C12"],
+      notes="clock, progress, cwd, outfile, announce / seed lists flow only to top-level keys or to object attributes, never into "
+            "info (clause info_key_set quantifies over every key)")
